@@ -139,6 +139,66 @@ def run(eng, rep, tier):
                                  ("with the marker " + marker) if marker else "without marker", got),
                               site=site_of(prog, rl, rl.node))
 
+    # the writer decides with a predicate on the first character whether a marker is needed; the reader decides with
+    # its own predicate whether an unmarked token is a variable: evaluate both over character classes
+    CLASSES = ("ascii-upper", "ascii-lower", "digit", "non-ascii-upper", "non-ascii-lower", "other")
+
+    def pred_classes(test):
+        """character classes of text[0] for which the test is true, or None if not understood"""
+        txt = ast.unparse(test)
+        if isinstance(test, ast.BoolOp) and isinstance(test.op, ast.And):
+            sets = [pred_classes(v) for v in test.values]
+            sets = [x for x in sets if x != "nonempty"]
+            if any(x is None for x in sets) or not sets:
+                return None
+            out = set(CLASSES)
+            for x in sets:
+                out &= x
+            return out
+        if isinstance(test, ast.UnaryOp) and isinstance(test.op, ast.Not):
+            inner = pred_classes(test.operand)
+            return None if inner in (None, "nonempty") else set(CLASSES) - inner
+        if isinstance(test, ast.Name) or (isinstance(test, ast.Compare) and "len(" in txt):
+            return "nonempty"
+        if isinstance(test, ast.Compare) and len(test.ops) == 1 and "ascii_uppercase" in txt:
+            base = {"ascii-upper"}
+            return base if isinstance(test.ops[0], ast.In) else set(CLASSES) - base
+        if isinstance(test, ast.Compare) and len(test.ops) == 1 and "ascii_lowercase" in txt:
+            base = {"ascii-lower"}
+            return base if isinstance(test.ops[0], ast.In) else set(CLASSES) - base
+        if isinstance(test, ast.Call) and isinstance(test.func, ast.Attribute):
+            return {"isupper": {"ascii-upper", "non-ascii-upper"}, "islower": {"ascii-lower", "non-ascii-lower"},
+                    "isdigit": {"digit"}, "isalpha": {"ascii-upper", "ascii-lower", "non-ascii-upper", "non-ascii-lower"}
+                    }.get(test.func.attr)
+        return None
+
+    def marker_pred(fn):
+        for sub in ast.walk(fn.node):
+            if isinstance(sub, ast.If) and any(isinstance(r, ast.Return) and ":" in ast.unparse(r) for r in sub.body):
+                return pred_classes(sub.test)
+        return None
+    mark_v, mark_t = marker_pred(vt), marker_pred(tt)
+    reader_upper = None
+    for sub in ast.walk(rl.node):
+        if isinstance(sub, ast.Compare) and "ascii_uppercase" in ast.unparse(sub) and "body_component" in ast.unparse(sub):
+            reader_upper = pred_classes(sub)
+    if mark_v is None or mark_t is None or reader_upper is None or "nonempty" in (mark_v, mark_t, reader_upper):
+        rep.error("R7", "C20.2", rl.qname, "marker-predicates", "the first-character predicates of to_text / _read_line are "
+                  "not understood")
+    else:
+        bad_v = sorted(k for k in CLASSES if k not in mark_v and k not in reader_upper)
+        bad_t = sorted(k for k in CLASSES if k not in mark_t and k in reader_upper)
+        ob.decide("R7", "C20.2", vt, "unmarked-variable-read-as-variable", not bad_v,
+                  "a variable is written without marker only when the reader's capital-letter rule classifies it as a "
+                  "variable",
+                  "a variable whose first character is %s is written without the VAR marker, but the reader only takes "
+                  "unmarked tokens starting with an ASCII capital as variables: it is read back as a terminal" % bad_v,
+                  None, site=site_of(prog, vt, vt.node))
+        ob.decide("R7", "C20.2", tt, "unmarked-terminal-read-as-terminal", not bad_t,
+                  "a terminal is written without marker only when the reader does not take it for a variable",
+                  "a terminal whose first character is %s is written without the TER marker and read back as a variable"
+                  % bad_t, None, site=site_of(prog, tt, tt.node))
+
     # -------------------------------------------------------------- C20.3 recursive automata
     fe = prog.method("RecursiveAutomaton", "from_ebnf")
     se = interp.run_entry(fe, RSA)
